@@ -28,7 +28,7 @@ def run_c14_location(cfg: FCfg, c: Ctx) -> Any:
     from tawazi import Resource, dag, xn
     from tawazi.errors import TawaziBaseException
 
-    variant = ("three-sites", "nested", "two-describing-functions", "profiled")[c.choose(4, "variant")]
+    variant = ("three-sites", "nested", "two-describing-functions", "profiled", "reconfigured")[c.choose(5, "variant")]
     res = (Resource.main_thread, Resource.thread, Resource.async_thread)[c.choose(3, "resource")]
     fail_at = c.choose(3, "failing_usage")
     calls: List[int] = []
@@ -85,6 +85,9 @@ def run_c14_location(cfg: FCfg, c: Ctx) -> Any:
     data: Dict[str, Any] = {"variant": variant, "resource": res.value, "failing_usage": fail_at}
     try:
         d = dag(pipe, max_concurrency=2)
+        if variant == "reconfigured":
+            # the failing usage was reconfigured after the description: its report still names it and its line
+            d.config_from_dict({"nodes": {ids[fail_at]: {"priority": 1}}})
         state["armed"] = True
         try:
             d(c.val("x"))
